@@ -32,6 +32,9 @@ pub enum ModelId {
     Sim3x5,
     Sim64x48Rgb666,
     Sim2048x2048,
+    /// external model of a panel that is hard-wired BGR and scanned bottom-to-top: its init
+    /// writes (and returns) an address mode with those bits set whatever the options say
+    SimHwBgr48x64,
 }
 
 pub const BUILTIN_MODELS: [ModelId; 14] = [
@@ -51,7 +54,8 @@ pub const BUILTIN_MODELS: [ModelId; 14] = [
     ModelId::RM67162,
 ];
 
-pub const SIM_MODELS: [ModelId; 11] = [
+pub const SIM_MODELS: [ModelId; 12] = [
+    ModelId::SimHwBgr48x64,
     ModelId::Sim1x1,
     ModelId::Sim1x65535,
     ModelId::Sim65535x1,
@@ -87,6 +91,7 @@ impl ModelId {
             Sim3x5 => (3, 5),
             Sim64x48Rgb666 => (64, 48),
             Sim2048x2048 => (2048, 2048),
+            SimHwBgr48x64 => (48, 64),
         }
     }
     pub fn rgb666(self) -> bool {
@@ -170,6 +175,15 @@ pub struct Config {
     pub init_levels: u8,
     pub clock_all_methods: bool,
     pub latch_partial: bool,
+    /// hand the interface to the builder as `&mut DI` (the crate's blanket
+    /// `impl Interface for &mut T`) instead of by value - Interface-level transports only
+    #[serde(default)]
+    pub by_ref: bool,
+    /// order in which the builder's setters are called (Lehmer code of the permutation of
+    /// size, offset, orientation, colour order, inversion, refresh order; bit 15: reset_pin
+    /// first instead of last). 0 = the order of the crate's own examples.
+    #[serde(default)]
+    pub builder_order: u16,
 }
 
 impl Config {
@@ -187,6 +201,15 @@ impl Config {
             c.refresh = *refresh;
         }
         c
+    }
+    /// colour-order and refresh-order bits the controller must hold (an external model may
+    /// hard-wire them)
+    pub fn madctl_bits(&self) -> (bool, u8) {
+        if self.model == ModelId::SimHwBgr48x64 {
+            (true, 1)
+        } else {
+            (self.bgr, self.refresh)
+        }
     }
     pub fn logical_size(&self) -> (u32, u32) {
         if self.orient.rot % 2 == 0 {
